@@ -61,7 +61,7 @@ def descriptor_samples(d, rng):
                 return vals, (None if ('$' in d[2] or '\\i' in d[2]) else d[2])
             except ValueError: return [], None
         if d[1] in ('NCName', 'ID', 'IDREF'): return ['N1', 'a-b.c_d', 'é中', 'e\u0301a', 'a\u00b7b', '\u0915\u093e'], None
-        if d[1] == 'language': return ['en', 'en-US', 'x-klingon'], None
+        if d[1] == 'language': return ['en', 'en-US', 'x-klingon', 'sr-Latn-RS', 'DE'], None
         if d[1] in ('integer', 'nonNegativeInteger', 'positiveInteger'): return ['1', '42', '007'], None
         if d[1] in ('double', 'decimal'): return ['1.5', '0', '3'], None
         if d[1] == 'anyURI': return ['http://example.org/a?b=c&d', '../x y'], None
@@ -93,6 +93,7 @@ def valid_by_descriptor(d, v):
     if t == 'value': return v == d[1]
     if t == 'data':
         if d[2] is None and d[1] in ('NCName', 'ID', 'IDREF'): return True if is_ncname(v) else None
+        if d[2] is None and d[1] == 'language': return True if re.fullmatch(r'[a-zA-Z]{1,8}(-[a-zA-Z0-9]{1,8})*', v) else None      # XML Schema part 2, 3.3.3
         if d[2] is None and d[1] == 'QName': return True if re.fullmatch(r'([A-Za-z_][\w.\-]*:)?[A-Za-z_][\w.\-]*', v) else None
         if d[2] is not None:
             if '$' in d[2] or '\\i' in d[2] or '\\c' in d[2]: return None
@@ -124,11 +125,14 @@ def run(ctx):
         valid, _ = descriptor_samples(desc, ctx.rng)
         vals = list(dict.fromkeys(valid))
         if kind in ('pat', 'patprefix', 'union', 'enum', 'bool', 'mangle'):
+            # the quick tier keeps the first 18: some valid values, values of neighbouring types (what a converter chosen by attribute
+            # name might let through), then near misses of the valid ones
+            vals = vals[:5] + ['1cm', '10%', '-1.5mm', 'new', 'replace', 'embed', 'none', 'true', 'TRUE'] + [x for v in valid[:2] for x in near_misses(v)[:3]] + vals[5:]
             for v in valid[:3]: vals += near_misses(v)
-            vals += ['1cm', '10%', '-1.5mm', 'true', 'TRUE', 'yes', '0 0 1 1', 'a b:c']
+            vals += ['yes', '0 0 1 1', 'a b:c']
         else:
             vals += FREE[:4]
-        vals = list(dict.fromkeys(vals))[: (14 if ctx.quick else 40)]
+        vals = list(dict.fromkeys(vals))[: (18 if ctx.quick else 48)]
         # ---- the real converter ----
         real = []
         for v in vals:
